@@ -108,6 +108,7 @@ func cmdCheck(args []string) {
 		*evid = "/verif/evidence/" + *prop + ".json"
 	}
 	t0 := time.Now()
+	loadHints("/verif/hints")
 	e := load(*repo, *ext)
 	known, fixed := loadKnown(*knownPath)
 
@@ -129,7 +130,7 @@ func cmdCheck(args []string) {
 	replayDir := filepath.Join(*outRoot, "replay")
 	os.MkdirAll(replayDir, 0o755)
 
-	quickSec, slowSec := 8, 15
+	quickSec, slowSec := 12, 36
 	cross := false
 	if *tier == "thorough" {
 		quickSec, slowSec, cross = 30, 60, true
